@@ -513,6 +513,28 @@ class Model:
         for name in order:
             to_sort[name].calculate_inpl(name, dependent)
 
+        # Computed stoichiometric coefficients name dependencies as well
+        not_solvable: dict[str, list[str]] = {}
+        for rxn_name, stoich in (
+            {k: v.stoichiometry for k, v in self._reactions.items()}
+            | {
+                k: v
+                for surrogate in self._surrogates.values()
+                for k, v in surrogate.stoichiometries.items()
+            }
+        ).items():
+            missing = {
+                arg
+                for factor in stoich.values()
+                if isinstance(factor, Derived)
+                for arg in factor.args
+                if arg not in dependent
+            }
+            if missing:
+                not_solvable[rxn_name] = sorted(missing)
+        if not_solvable:
+            raise MissingDependenciesError(not_solvable=not_solvable)
+
         # Split derived into static and dynamic variables
         static_order = []
         dyn_order = []
